@@ -268,7 +268,57 @@ class Session:
             return z3.BoolVal(True)
         return z3.And(*cls) if len(cls) > 1 else cls[0]
 
-    def prove_nf(self, name, pc, rules, A, B, **kw):
+    def resolve_ifs(self, pc, rules, arrays):
+        """If-terms whose condition is decided by the path condition are replaced by the taken branch
+        (alias justified by a proved implication) so that the polynomial normal form sees through clips."""
+        import numpy as _np
+
+        done = getattr(rules, "_ifs_done", None)
+        if done is None:
+            done = rules._ifs_done = {}
+        found = {}
+
+        def walk(t, seen):
+            k = t.get_id()
+            if k in seen:
+                return
+            seen[k] = t
+            if z3.is_app(t):
+                if t.decl().kind() == z3.Z3_OP_ITE and z3.is_real(t):
+                    found[k] = t
+                for c in t.children():
+                    walk(c, seen)
+
+        seen = {}
+        for arr in arrays:
+            for x in _np.asarray(arr, dtype=object).flat:
+                x = R(x)
+                if not x.concrete:
+                    walk(x.v, seen)
+        new = 0
+        for k, t in found.items():
+            if k in done:
+                continue
+            c, a, b = t.children()
+            q = self.prove(f"[if-resolution] {str(c)[:60]}", pc, c, timeout_ms=3000, tags={"optional": True, "aux": True})
+            self.results.pop()
+            if q.holds:
+                done[k] = (t, a)
+            else:
+                q = self.prove(f"[if-resolution] not {str(c)[:60]}", pc, z3.Not(c), timeout_ms=3000, tags={"optional": True, "aux": True})
+                self.results.pop()
+                done[k] = (t, b) if q.holds else (t, None)
+            if done[k][1] is not None:
+                rules.aliases.append((t, done[k][1]))
+                rules.assumptions.append(t == done[k][1])
+                new += 1
+        if new:
+            rules._norm = None
+        return new
+
+    def prove_nf(self, name, pc, rules, A, B, resolve_ifs=False, **kw):
+        if resolve_ifs:
+            self.resolve_ifs(pc, rules, [A, B])
         cl = self.nf_claim(rules, A, B)
         return self.prove(name, list(pc) + list(rules.assumptions), cl, **kw)
 
